@@ -697,3 +697,123 @@ func c05Rerun() {
 
 func VerifC05Rerun() { c05Rerun() }
 func VerifC06Rerun() { c05Mode = 6; c05Rerun() }
+
+// A chain whose nodes change the value type, with pass-through nodes in between:
+//   START -> len(string->int) -> p(pass) -> dbl(int->int) -> q(pass) -> str(int->string) -> END
+// one or two interrupt points (before/after any node), every call in its own paradigm (Invoke/Stream): the pending
+// input of every node kind (typed, pass-through) survives the checkpoint in both the value and the stream form.
+func c05TypedChain() {
+	ctx := context.Background()
+	vcfg("fifo", 1)
+	vcfg("selectfirst", 1)
+	names := []string{"len", "p", "dbl", "q", "str"}
+	counts := map[string]int{}
+	x := vsymStr("x")
+	g := NewGraph[string, string]()
+	_ = g.AddLambdaNode("len", InvokableLambda(func(ctx context.Context, in string) (int, error) {
+		counts["len"]++
+		a5(in == x, "typed chain: node len runs on the original input")
+		return len(in), nil
+	}))
+	_ = g.AddPassthroughNode("p")
+	_ = g.AddLambdaNode("dbl", InvokableLambda(func(ctx context.Context, in int) (int, error) {
+		counts["dbl"]++
+		a5(in == len(x), "typed chain: node dbl runs on the value len produced")
+		return in*2 + 1, nil
+	}))
+	_ = g.AddPassthroughNode("q")
+	_ = g.AddLambdaNode("str", InvokableLambda(func(ctx context.Context, in int) (string, error) {
+		counts["str"]++
+		a5(in == len(x)*2+1, "typed chain: node str runs on the value dbl produced")
+		if in > 5 {
+			return "long", nil
+		}
+		return "short", nil
+	}))
+	prev := START
+	for _, n := range names {
+		_ = g.AddEdge(prev, n)
+		prev = n
+	}
+	_ = g.AddEdge(prev, END)
+	var before, after []string
+	nInt := 1 + vchoose("points", 2)
+	used := map[string]bool{}
+	desc := ""
+	stops := map[int]bool{} // distinct places between two nodes at which the run has to stop
+	for i := 0; i < nInt; i++ {
+		k := vchoose("node", len(names))
+		n := names[k]
+		if used[n] {
+			return
+		}
+		used[n] = true
+		if vchoose("when", 2) == 0 {
+			before = append(before, n)
+			desc += "before:" + n + " "
+			stops[k] = true
+		} else {
+			after = append(after, n)
+			desc += "after:" + n + " "
+			if k+1 < len(names) { // the run finishes with the last node: nothing left to stop before
+				stops[k+1] = true
+			}
+		}
+	}
+	store := &vStore{m: map[string][]byte{}}
+	mon := &c06Mon{}
+	_ = mon
+	r, err := g.Compile(ctx, WithCheckPointStore(store), WithInterruptBeforeNodes(before), WithInterruptAfterNodes(after))
+	vassert(err == nil, "typed chain compiles")
+	want := "short"
+	if len(x)*2+1 > 5 {
+		want = "long"
+	}
+	var out string
+	var rerr error
+	interrupts := 0
+	for call := 0; call < 4; call++ {
+		if vchoose("paradigm", 2) == 1 {
+			desc += "S "
+			sr, e := r.Stream(ctx, x, WithCheckPointID("t"))
+			rerr = e
+			if e == nil {
+				out = ""
+				for i := 0; i < 4; i++ {
+					c, e := sr.Recv()
+					if e == io.EOF {
+						break
+					}
+					if e != nil {
+						rerr = e
+						break
+					}
+					out += c
+				}
+				sr.Close()
+			}
+		} else {
+			desc += "I "
+			out, rerr = r.Invoke(ctx, x, WithCheckPointID("t"))
+		}
+		if rerr == nil {
+			break
+		}
+		info, ok := ExtractInterruptInfo(rerr)
+		a5(ok, "typed chain: the run is only ever stopped by interrupts, not by a conversion failure ("+desc+")")
+		if !ok {
+			return
+		}
+		a6(len(info.BeforeNodes)+len(info.AfterNodes) > 0, "typed chain: the interrupt reports its nodes ("+desc+")")
+		interrupts++
+	}
+	a5(rerr == nil, "typed chain: the run completes after at most one resume per interrupt point ("+desc+")")
+	a5(out == want, "typed chain: the resumed run returns the uninterrupted result ("+desc+")")
+	a6(interrupts == len(stops), "typed chain: one interrupt per place at which a configured node asks the run to stop ("+desc+")")
+	for _, n := range []string{"len", "dbl", "str"} {
+		a5(counts[n] == 1, "typed chain: node "+n+" executed exactly once over all calls ("+desc+")")
+	}
+}
+
+func VerifC05TypedChain() { c05TypedChain() }
+func VerifC06TypedChain() { c05Mode = 6; c05TypedChain() }
